@@ -21,7 +21,7 @@ func init() {
 	register(&Prop{
 		ID:  "C11",
 		Run: runC11,
-		Rule: "one case = (N, M, tick, level set of the wrapped core, message alphabet with measured budget classes, member: sequential history / concurrent inside an open window / concurrent straddling a window edge / clock stepping back) and the generated (level, message, timestamp, via-With?) entries, under one seeded schedule with a yield before every atomic operation of the sampler; " +
+		Rule: "one case = (N, M, tick, level set of the wrapped core, message alphabet with measured budget classes, member: sequential history / concurrent inside an open window / concurrent straddling a window edge / clock stepping back / concurrent tasks each on its own key at a level not used before) and the generated (level, message, timestamp, via-With?) entries, under one seeded schedule with a yield before every atomic operation of the sampler; " +
 			"non-trivial = at least one entry was dropped and one admitted, or at least 2 tasks; distinct = distinct hash of (scheduling decisions, sequence of (level, budget class, admitted?))",
 		Real: []string{"zapcore.NewSamplerWithOptions / sampler.Check / sampler.With / counter.IncCheckReset / counters.get", "sync/atomic operations (simatomic: yield, then the real operation)"},
 		Stub: []string{"wrapped core (records Check/Write per entry)", "SamplerHook (records decisions per entry)", "entry timestamps"},
@@ -151,7 +151,7 @@ func runC11(c *Ctx) {
 		}
 		return l >= zapcore.ErrorLevel || l == zapcore.DebugLevel-1
 	}
-	member := g.Weighted(5, 3, 2, 1) // 0 sequential, 1 concurrent in window, 2 concurrent straddling, 3 clock stepping back
+	member := g.Weighted(5, 3, 2, 1, 2) // 0 sequential, 1 concurrent in window, 2 concurrent straddling, 3 clock stepping back, 4 concurrent on disjoint keys
 	inner := &c11core{w: w}
 	hook := func(e zapcore.Entry, d zapcore.SamplingDecision) {
 		rec := &w.recs[c11id(e)]
@@ -243,6 +243,31 @@ func runC11(c *Ctx) {
 	if member == 1 || member == 2 {
 		nTasks = 2 + g.Draw(3)
 	}
+	// member 4: every task logs its own message (its own budget: distinct
+	// measured classes) at one level that nothing has used on this sampler
+	// before. The entries of a key are issued by one task in order, so the
+	// sequential model applies to every key exactly, whatever the other tasks
+	// do to their keys at the same time - including the very first use of the
+	// level by several tasks at once.
+	var ownMsg []int
+	ownLevel := zapcore.InfoLevel
+	if member == 4 {
+		seen := map[int]bool{}
+		for m := 0; m < nmsg; m++ {
+			if !seen[class[m]] {
+				seen[class[m]] = true
+				ownMsg = append(ownMsg, m)
+			}
+		}
+		nTasks = 2 + g.Draw(3)
+		if nTasks > len(ownMsg) {
+			nTasks = len(ownMsg)
+		}
+		if nTasks < 2 {
+			member, nTasks = 0, 1
+		}
+		ownLevel = pick(g, zapcore.DebugLevel, zapcore.InfoLevel, zapcore.WarnLevel, zapcore.ErrorLevel, zapcore.DPanicLevel, zapcore.PanicLevel, zapcore.FatalLevel)
+	}
 	maxE := 14
 	if c.Tier == "thorough" {
 		maxE = 40
@@ -273,8 +298,23 @@ func runC11(c *Ctx) {
 	for t := 0; t < nTasks; t++ {
 		n := 1 + g.Draw(maxE)
 		var p []*c11entry
+		if member == 4 {
+			cur = t0
+		}
 		for i := 0; i < n; i++ {
 			switch member {
+			case 4:
+				switch g.Weighted(6, 1, 1, 1, 1) {
+				case 1:
+					cur = cur.Add(step - 1)
+				case 2:
+					cur = cur.Add(step)
+				case 3:
+					cur = cur.Add(step + 1)
+				case 4:
+					cur = cur.Add(time.Duration(g.Draw(int(step/2)+1)) + 1)
+				}
+				p = append(p, mk(ownLevel, ownMsg[t], cur, g.Chance(3)))
 			case 0, 3:
 				// walk time around window edges
 				switch g.Weighted(5, 2, 2, 2, 1, 1) {
@@ -465,6 +505,18 @@ func runC11(c *Ctx) {
 	}
 	if admitted > 0 && droppedN > 0 {
 		c.Nontrivial = true
+	}
+	if member == 4 {
+		for t, p := range progs {
+			for _, e := range p {
+				admit, decided := modelStep(e)
+				if got := w.recs[e.id].forwarded == 1; decided && got != admit {
+					k := key{e.lvl, class[e.msg]}
+					c.Fail("C11: admission of a key logged by one task differs from the windowed-counter model while other tasks log other keys", "task %d entry %d (level %d, msg %q, t=+%v, via With=%v): model count in window=%d, N=%d M=%d tick=%v: expected admitted=%v, got %v", t, e.id, e.lvl, c11msgs[e.msg], e.t.Sub(t0), e.child, model[k].count, N, M, tick, admit, got)
+					return
+				}
+			}
+		}
 	}
 	if member == 1 {
 		// all entries of a key fell into an already open window: the count is exact
